@@ -276,16 +276,27 @@ Definition separated (ts : list (bool * tok)) : bool :=
 
 (* ---- the implementation's own tables ----------------------------------- *)
 
+(* cue/format/printer.go opCombinesWith(prev, lead): a unary < > or ! written
+   directly before text starting with lead would lex as another token *)
+Definition v1_op_combines (prev : tok) (c : N) : bool :=
+  match prev with
+  | TOp LSS => (c =? 45) || (c =? 61)      (* <-  <= *)
+  | TOp GTR | TOp NOT => c =? 61           (* >=  != *)
+  | _ => false
+  end.
+
 (* cue/format/printer.go mayCombine(prev, next).before for operator tokens:
    prev is the class of the last printed token, the decision looks at the first
-   byte of the next token. (Keywords are not modelled.) *)
+   byte of the next token; every other prev goes to opCombinesWith.
+   (Keywords are not modelled.) *)
 Definition v1_may_combine (prev u : tok) : bool :=
   match prev, spell u with
   | TInt _, _ => match u with TP PERIOD => true | _ => false end
   | TOp ADD, c :: _ => c =? 43
   | TOp SUB, c :: _ => c =? 45
   | TOp QUO, c :: _ => c =? 42
-  | _, _ => false
+  | _, c :: _ => v1_op_combines prev c
+  | _, [] => false
   end.
 
 (* internal/pretty/ast.go unaryOpMergesWithOperand(op, operand) where the
